@@ -35,6 +35,7 @@ SEARCHED = [
     "emitted source compiles / loads without error for every graph the target accepts",
     "exempt template rows (python sign, cpp sign, numpy item: bare operand holes) — decided on generated graphs only",
     "auto-generated reference names never collide on the graphs explored (side condition of no_alias)",
+    "toidentifier (value part of a constant's name) is injective on the value families explored: floats incl. random bit patterns, numpy scalars, complex values agreeing in one part (the Lean model ConstName.ident is tied by correspondence; only int injectivity is a theorem)",
 ]
 TRUSTED = [
     "Lean 4 kernel; axioms propext, Classical.choice, Quot.sound only",
@@ -324,6 +325,15 @@ def classify(r):
     return out
 
 
+def ident_failures(r):
+    out = []
+    for c in r.get("collisions", []):
+        sig = {"sign-of-zero": "alias:constant-name-ignores-sign-of-zero",
+               "numpy-hex-bytes": "alias:constant-name-numpy-hex-bytes-not-zero-padded"}.get(c["cls"], "alias:toidentifier:different-values-same-identifier")
+        out.append((sig, f"toidentifier maps the different values {c['values']} to the same identifier `{c['ident']}`", c))
+    return out
+
+
 def classify_history(r):
     out = []
     for ev in r.get("overwrites", []):
@@ -517,11 +527,9 @@ def run(ctx):
             continue
         if r["kind"] == "idents":
             ctx.case(key=cid, nontrivial=bool(r.get("collisions")))
-            for c in r.get("collisions", []):
-                sig = {"sign-of-zero": "alias:constant-name-ignores-sign-of-zero",
-                       "numpy-hex-bytes": "alias:constant-name-numpy-hex-bytes-not-zero-padded"}.get(c["cls"], "alias:toidentifier:different-values-same-identifier")
-                ctx.violation(sig, f"toidentifier maps the different values {c['values']} to the same identifier `{c['ident']}`",
-                              dict(case=dict(case, values=None, pair=c["values"]), failure=c), broken_item=corr_items.get(cid))
+            for sig, what, c in ident_failures(r):
+                ctx.violation(sig, what, dict(case=dict(id="idents-pair", kind="idents", values=c["specs"]), failure=c),
+                              broken_item=corr_items.get(cid))
             continue
         st = r.get("status")
         status_count[(r.get("target"), st)] = status_count.get((r.get("target"), st), 0) + 1
@@ -579,6 +587,9 @@ def replay(ctx, obj):
     r = res[0]
     if case["kind"] == "history":
         fails = classify_history(r)
+    elif case["kind"] == "idents":
+        fails = [(sg, w) for sg, w, _ in ident_failures(r)]
+        print(json.dumps(dict(real=r.get("iout"), collisions=r.get("collisions")), indent=1))
     else:
         r["stream"] = case.get("recipe", {}).get("stream", "")
         r["root"] = case.get("recipe", {}).get("root")
